@@ -1,0 +1,10 @@
+//! Hooks for an out-of-crate verification harness. Compiled only with the cargo feature `verif`
+//! (off by default); thin public wrappers around crate-private items, adding no behaviour.
+pub mod addrs;
+pub mod fetch;
+pub mod handshake;
+pub mod mux;
+pub mod noise;
+pub mod pool;
+pub mod rpc;
+pub mod wire;
